@@ -466,6 +466,24 @@ func (a *Analysis) direct(f *ssa.Function) {
 					}
 					continue
 				}
+				// stdlib append-style functions: Append*(dst []byte, ...) []byte write into the spare
+				// capacity of dst exactly as the builtin does
+				if strings.HasPrefix(callee.Name(), "Append") && callee.Signature.Results().Len() >= 1 {
+					if _, isS := callee.Signature.Results().At(0).Type().Underlying().(*types.Slice); isS {
+						di := 0
+						if callee.Signature.Recv() != nil {
+							di = 1
+						}
+						if di < len(cc.Args) {
+							if _, isS := cc.Args[di].Type().Underlying().(*types.Slice); isS && !capLimited(cc.Args[di]) {
+								for _, r := range RootsOf(f, cc.Args[di]) {
+									a.add(f, &Write{Fn: f, At: ins, Kind: "append", Root: r})
+								}
+								continue
+							}
+						}
+					}
+				}
 				// pointer-receiver stdlib methods that modify the receiver
 				if callee.Signature.Recv() != nil && len(cc.Args) > 0 && callee.Pkg != nil && callee.Pkg.Pkg.Path() != "sync" && callee.Pkg.Pkg.Path() != "sync/atomic" {
 					if _, isPtr := callee.Signature.Recv().Type().(*types.Pointer); isPtr {
